@@ -87,7 +87,7 @@ static std::vector<CheckDef> g_checks = {
           { "a guard page detects out-of-range accesses that cross into the neighbouring page from the flush side; the opposite side is covered by "
             "canaries (writes) and by the other placement in other runs (reads)",
             "documented alignment rules are honoured (16-byte CBC IV and key schedules, 64-byte _nt buffers, 16-byte GCM key data)" } },
-        { "C14", "exploration", { { "stream", 2 }, { "oneshot", 4 } }, 30000, 3000000, 50, 900, false, false,
+        { "C14", "exploration", { { "stream", 2 }, { "oneshot", 4 }, { "streamhuge", 0, 8 } }, 30000, 3000000, 50, 900, false, false,
           "cases: AES entry points of every family (key expansion, GCM precompute/init/update/finalize/one-shot, CBC, XTS) reached from the "
           "streaming GCM clients and the one-shot client; after each call all 128 16-byte lanes of zmm0-31 and every byte offset of the "
           "dirtied part of the 64 KiB dead stack are searched for the call's secret set; distinct_nontrivial: distinct (entry/kind, family, "
@@ -99,13 +99,13 @@ static std::vector<CheckDef> g_checks = {
             "a second pass runs the same monitor over the FIPS_MODE archive (one-shot and streaming clients through the gated isal_ API, and the "
             "FIPS gate enumeration with failed / not-yet-run self-tests): the gated wrappers add code of their own around the kernels" },
           { { "oneshot", 4 }, { "stream", 2 }, { "fipsgate", 3 } }, 16000, 1000000 },
-        { "C19", "exploration", { { "hashmgr", 2 }, { "stream", 3 }, { "oneshot", 3 }, { "dispatch", 1 }, { "l2mgr", 3 } }, 40000, 4000000, 50, 900, false, false,
+        { "C19", "exploration", { { "hashmgr", 2 }, { "stream", 3 }, { "oneshot", 3 }, { "dispatch", 1 }, { "l2mgr", 3 }, { "streamhuge", 0, 12 } }, 40000, 4000000, 50, 900, false, false,
           "cases: every library call of the mixed batch (hash managers, streaming objects, one-shot AES, dispatch resolvers) goes through the "
           "register-poisoning trampoline; rsp, rbx, rbp, r12-r15, DF, MXCSR control bits, x87 CW and 64 canary bytes above the callee's frame "
           "are compared after each call; distinct_nontrivial: distinct workload states (as C08) plus distinct (entry, bound target) pairs for "
           "the resolvers",
           { "exit paths are reached through the workloads' histories and length classes, not enumerated from the source" } },
-        { "C20", "exploration", { { "hashmgr", 3 }, { "stream", 4 }, { "oneshot", 3 }, { "l2mgr", 2 } }, 24000, 2400000, 50, 900, true, false,
+        { "C20", "exploration", { { "hashmgr", 3 }, { "stream", 4 }, { "oneshot", 3 }, { "l2mgr", 2 }, { "streamhuge", 0, 8 } }, 24000, 2400000, 50, 900, true, false,
           "cases: every plan of the mixed batch is executed twice with different hidden seeds (output prefill, uninitialised object memory, bytes "
           "beyond len, caller-saved/vector/mask registers, flags, 64 KiB dead stack) and identical schedule/transport/fault streams and "
           "addresses; the two observable histories must be identical; distinct_nontrivial: distinct workload states (as C08)",
